@@ -59,6 +59,18 @@ def run_from_dir_perc(spec, props):
             A.add(V("C17", fn, "digraph", "range", "(PE,AR)=%r outside [0,1] on n=%d edges=%r" % ((pe, ar), n, es), (), (pe, ar), sorted(allowed)))
         elif not in_set((pe, ar), allowed):
             A.add(V("C17", fn, "digraph", "value", "(PE,AR)=%r on n=%d edges=%r; a largest strongly connected component gives one of %r" % ((pe, ar), n, es, sorted(allowed)), (), (pe, ar), sorted(allowed)))
+        # the answer does not depend on what the nodes are called: tuple labels (grid graphs), strings made of characters that are
+        # themselves node names, frozensets
+        if n <= 4 or spec.get("relabel_all"):
+            for lname, lab in (("tuple", lambda i: (i // 2, i % 2)), ("chars", lambda i: "abcdefghij"[i] if i % 2 == 0 else "abcdefghij"[i - 1] + "abcdefghij"[i]),
+                               ("frozenset", lambda i: frozenset([i, "x"]))):
+                H2 = nx.relabel_nodes(H, {i: lab(i) for i in range(n)})
+                try:
+                    pe2, ar2 = EoN.estimate_SIR_prob_size_from_dir_perc(H2)
+                except Exception as e:
+                    A.add(V("C17", fn, "digraph+labels:" + lname, "exception", "raised %r on digraph n=%d edges=%r relabelled with %s labels %r" % (e, n, es, lname, [lab(i) for i in range(n)]))); continue
+                if not in_set((pe2, ar2), allowed):
+                    A.add(V("C17", fn, "digraph+labels:" + lname, "value", "(PE,AR)=%r on n=%d edges=%r with %s labels %r; allowed %r" % ((pe2, ar2), n, es, lname, [lab(i) for i in range(n)], sorted(allowed))))
         # helpers with node and iterable arguments
         for src in list(range(n))[:2]:
             want = reach(succ, [src])
@@ -118,6 +130,9 @@ def run_estimate_undirected(spec, props):
         if r.exc is not None:
             A.add(V("C17", fn, "undirected", "exception", "raised %r" % (r.exc,), r.chosen())); continue
         Hs = r.ctx.get("H", [])
+        if not Hs and (p <= 0 or p >= 1):
+            # (an implementation may skip the percolation step when nothing / everything survives: judged by the value alone)
+            Hs = [(list(range(n)), [] if p <= 0 else sorted(tuple(sorted(e)) for e in es))]
         if len(Hs) != 1 or Hs[0][0] != list(range(n)) or not set(Hs[0][1]) <= set(tuple(sorted(e)) for e in es):
             A.add(V("C17", fn, "undirected", "percolated_network", "the estimator worked on %r, expected one percolation of G (nodes %r, a subset of the edges %r)" % (Hs, list(range(n)), es), r.chosen())); continue
         kept = [e for e in G.edges() if tuple(sorted(e)) in set(Hs[0][1])]
